@@ -21,6 +21,7 @@ from vlib.check import Check, run_check  # noqa
 from vlib import machine as M  # noqa
 from vlib import native  # noqa
 from checks import stepper as S, builtins as B  # noqa
+from checks import c09b  # noqa
 
 COMMANDS = [":resume", ":skip", ":abort", ":replace 42"]
 
@@ -215,6 +216,8 @@ def main():
                                  model_desc=lambda m, seq=seq, p=p: {"state": "idle", "commands": seq, "panic": str(p)})
             elif r.kind == "ok":
                 C.note_interp(r.value["I"])
+    # part B: the value-balance kernel (inductive step over all balanced stopped states)
+    c09b.run_balance(C, P)
     C.resolve_deferred(workers=8)
     C.extra["recipes_not_encodable"] = dict(list(not_enc.items())[:40])
     C.extra["error_states_played"] = n_states
